@@ -73,3 +73,44 @@ Theorem C02_every_result_is_such_a_grouping :
   R = trivial_result A B op \/
   exists cs, ginv N cs /\ R = map (poly_of N cs) (filter (is_ext N) cs).
 Proof. exact boolean_operation_grouping. Qed.
+
+(** ** "no boundary segment is shared by two rings or traversed twice", combinatorial half,
+    every instance: the contours of the result use every selected sub-segment EXACTLY ONCE.
+    [trs] are ghost traces — for each contour the positions (in the vector of result events)
+    marked while it was walked, newest first, two per edge: the position of an event and of
+    its partner; [chainP] says that consecutive contour points are the two ends of exactly
+    that pair.  All traces together are a permutation of all positions.  (That two DIFFERENT
+    selected sub-segments do not coincide geometrically is the twin rule: C02_twin_not_selected.) *)
+From Coq Require Import ZArith Permutation.
+From GB Require Import Connect ContourEdges ContourOnce.
+Theorem C02_contours_use_every_subsegment_once :
+  forall (N : Num) (cfg : Outcome.config) fuel (st : store N) evs st' res cs,
+  NoDup evs -> paired N st (filter (in_result_filter st) evs) ->
+  connect_edges cfg fuel st evs = Outcome.Ok (st', res, cs) ->
+  exists (st1 : store N) (trs : list (list Z)),
+    (forall k, e_point (getE st1 k) = e_point (getE st k)) /\
+    Forall2 (fun c tr => chainP N st1 res (rev (c_points c)) tr) cs trs /\
+    Permutation (concat (rev trs)) (List.map Z.of_nat (seq 0 (length res))).
+Proof. exact contours_use_every_subsegment_once. Qed.
+
+Theorem C02_chainP_unfold :
+  forall (N : Num) (st0 : store N) (res : list eid) (q p : pt N) (tl : list (pt N)) (zko zk : Z) (tr : list Z),
+  chainP N st0 res (q :: p :: tl) (zko :: zk :: tr) <->
+  (exists k ko i o x, zk = Z.of_nat k /\ zko = Z.of_nat ko /\ at_pos res k i /\ at_pos res ko o /\
+     e_other (getE st0 i) = Some o /\ pt_eq x p = true /\ pt_eq x (e_point (getE st0 i)) = true /\
+     q = e_point (getE st0 o)) /\ chainP N st0 res (p :: tl) tr.
+Proof. exact (fun _ _ _ _ _ _ _ _ _ => conj (fun H => H) (fun H => H)). Qed.
+
+(** the hypotheses hold for every complete sweep of finite operands at the exact instance *)
+From GB Require Import NumQ FillQueue Subdivide SweepClosure Coverage ResultEdges.
+Theorem C02_exact_contours_once :
+  forall (A B : list (polygon NQ)) cfg fuel fuel' op st sorted n st' res cs,
+  (forall P, In P A -> finite_poly P) -> (forall P, In P B -> finite_poly P) ->
+  complete_sweep cfg op ->
+  subdivide cfg fuel (fill_queue A B op) op = Outcome.Ok (st, sorted, n) ->
+  connect_edges cfg fuel' st sorted = Outcome.Ok (st', res, cs) ->
+  exists (st1 : store NQ) (trs : list (list Z)),
+    (forall k, e_point (getE st1 k) = e_point (getE st k)) /\
+    Forall2 (fun c tr => chainP NQ st1 res (rev (c_points c)) tr) cs trs /\
+    Permutation (concat (rev trs)) (List.map Z.of_nat (seq 0 (length res))).
+Proof. exact exact_contours_once. Qed.
